@@ -119,4 +119,134 @@ theorem ref_revcompSeqs {b : Bag} (h : Good b) (names : List String) : Refines b
       rw [← e.1]
       simp only [abs, h1, hs.policy, hs.alphabet, hs.isAlign]
 
+/-! ### `DiffWithFirst`, `ReplaceMatchChars` -/
+
+theorem mapIdx_eq_zipIdx_map (o : Seq) (g : Nat → Byte → Byte) (k : Byte × Nat → Byte)
+    (h : ∀ i (hi : i < o.length), g i o[i] = k (o[i], i)) : o.mapIdx g = o.zipIdx.map k := by
+  apply List.ext_getElem
+  · simp
+  · intro i h1 h2
+    have hi : i < o.length := by simpa using h1
+    simp [h i hi]
+
+theorem abs_againstFirst (g : Seq → Seq → Seq) (b : Bag) :
+    abs { b with rows := withSeqs b.rows (againstFirst g (pairs b)) } =
+      { abs b with rows := againstFirst g (pairs b) } := by
+  have := pairs_withSeqs b.rows _ ((againstFirst_names g _).trans (pairs_names b))
+  simp only [abs, pairs] at this ⊢
+  rw [this]
+
+theorem rect_pairs_len {b : Bag} (h : Rect b) (ha : b.isAlign = true) :
+    ∀ p ∈ pairs b, p.2.length = b.length.toNat := by
+  intro p hp
+  obtain ⟨r, hr, rfl⟩ := List.mem_map.mp hp
+  have := h.rows_len ha r hr
+  simp only []
+  omega
+
+theorem diffCell_eq (f : Seq) (i : Nat) (c : Byte) :
+    (decide (i < f.length) && f.getD i 0 == c) = (f[i]? == some c) := by
+  by_cases hi : i < f.length
+  · simp [hi, List.getD_eq_getElem?_getD, List.getElem?_eq_getElem hi]
+  · have : f[i]? = none := List.getElem?_eq_none (by omega)
+    simp [hi, this]
+
+theorem diffSeq_eq (f o : Seq) :
+    diffSeq f o = o.zipIdx.map fun (c, i) => if f[i]? == some c then POINT else c := by
+  unfold diffSeq
+  apply mapIdx_eq_zipIdx_map
+  intro i hi
+  simp only [diffCell_eq]
+
+theorem ref_diffFirst {b : Bag} (h : Good b) : Refines b .diffFirst := by
+  intro s' st e
+  simp only [Spec.stepOp, Model.stepOp, abs_isAlign, abs_rows] at e ⊢
+  by_cases ha : b.isAlign = true
+  · simp only [ha, Bool.not_true, Bool.false_eq_true, if_false] at e ⊢
+    have hlen := rect_pairs_len h.rect ha
+    have hnp : diffPanics (pairs b) = false := by
+      cases hp : pairs b with
+      | nil => rfl
+      | cons r0 rest =>
+        simp only [diffPanics, List.any_eq_false, decide_eq_true_eq, Nat.not_lt]
+        intro r hr
+        rw [hlen r (by rw [hp]; exact List.mem_cons_of_mem _ hr), hlen r0 (by rw [hp]; simp)]
+        exact Nat.le_refl _
+    have hv : diffWithFirstBag b = some { b with rows := withSeqs b.rows (againstFirst diffSeq (pairs b)) } := by
+      unfold diffWithFirstBag; simp [hnp]
+    simp only [hv]
+    refine ⟨?_, ?_, (sameShape_againstFirst _ diffSeq_length b).good h⟩
+    · rw [abs_againstFirst]
+      cases hp : pairs b with
+      | nil =>
+        simp only [hp, Prod.mk.injEq, Option.some.injEq] at e
+        rw [← e.1]; simp [abs, hp, againstFirst, ha]
+      | cons r0 rest =>
+        simp only [hp, Prod.mk.injEq, Option.some.injEq] at e
+        rw [← e.1]
+        simp only [abs, hp, againstFirst, diffSeq_eq, ha]
+    · cases hp : pairs b with
+      | nil => simp only [hp, Prod.mk.injEq] at e; exact e.2
+      | cons r0 rest => simp only [hp, Prod.mk.injEq] at e; exact e.2
+  · have ha' : b.isAlign = false := by simpa using ha
+    simp only [ha', Bool.not_false, if_true, Prod.mk.injEq, Option.some.injEq] at e ⊢
+    exact ⟨e.1, e.2, h⟩
+
+theorem matchPanics_false (L : Nat) (rows : List (String × Seq)) (h : ∀ p ∈ rows, p.2.length = L) :
+    matchPanics L rows = false := by
+  have hany : (rows.any fun r => decide (r.2.length < L)) = false := by
+    simp only [List.any_eq_false, decide_eq_true_eq, Nat.not_lt]
+    intro r hr; rw [h r hr]; exact Nat.le_refl _
+  match rows, hany with
+  | [], _ => rfl
+  | [_], _ => rfl
+  | _ :: _ :: _, hany => simpa [matchPanics] using hany
+
+theorem matchSeq_eq (L : Nat) (f o : Seq) (hf : f.length = L) (ho : o.length = L) :
+    matchSeq L f o = o.zipIdx.map fun (c, i) => if c == POINT then (f[i]?).getD c else c := by
+  unfold matchSeq
+  apply mapIdx_eq_zipIdx_map
+  intro i hi
+  have hiL : i < L := by omega
+  have hif : i < f.length := by omega
+  simp only [hiL, decide_true, Bool.true_and, List.getD_eq_getElem?_getD, List.getElem?_eq_getElem hif,
+    Option.getD_some]
+  by_cases hc : o[i] = POINT
+  · by_cases hfp : f[i] = POINT
+    · simp [hc, hfp]
+    · simp [hc, hfp]
+  · simp [hc]
+
+theorem ref_replaceMatch {b : Bag} (h : Good b) : Refines b .replaceMatch := by
+  intro s' st e
+  simp only [Spec.stepOp, Model.stepOp, abs_isAlign, abs_rows] at e ⊢
+  by_cases ha : b.isAlign = true
+  · simp only [ha, Bool.not_true, Bool.false_eq_true, if_false] at e ⊢
+    have hlen := rect_pairs_len h.rect ha
+    have hnp := matchPanics_false b.length.toNat (pairs b) hlen
+    have hv : replaceMatchCharsBag b =
+        some { b with rows := withSeqs b.rows (againstFirst (matchSeq b.length.toNat) (pairs b)) } := by
+      unfold replaceMatchCharsBag; simp [hnp]
+    simp only [hv]
+    refine ⟨?_, ?_, (sameShape_againstFirst _ (matchSeq_length _) b).good h⟩
+    · rw [abs_againstFirst]
+      cases hp : pairs b with
+      | nil =>
+        simp only [hp, Prod.mk.injEq, Option.some.injEq] at e
+        rw [← e.1]; simp [abs, hp, againstFirst, ha]
+      | cons r0 rest =>
+        simp only [hp, Prod.mk.injEq, Option.some.injEq] at e
+        rw [← e.1]
+        simp only [abs, hp, againstFirst, ha]
+        congr 2
+        apply List.map_congr_left
+        intro r hr
+        rw [matchSeq_eq _ _ _ (hlen r0 (by rw [hp]; simp)) (hlen r (by rw [hp]; exact List.mem_cons_of_mem _ hr))]
+    · cases hp : pairs b with
+      | nil => simp only [hp, Prod.mk.injEq] at e; exact e.2
+      | cons r0 rest => simp only [hp, Prod.mk.injEq] at e; exact e.2
+  · have ha' : b.isAlign = false := by simpa using ha
+    simp only [ha', Bool.not_false, if_true, Prod.mk.injEq, Option.some.injEq] at e ⊢
+    exact ⟨e.1, e.2, h⟩
+
 end Gv.Proofs.BagAbs
